@@ -97,7 +97,14 @@ def h5_tokens(text, state, last, cdata, chunk=None):
             items = tuple((k, v) for k, v in (d.items() if hasattr(d, "items") else d))
             out.append(("start", t["name"], items, bool(t["selfClosing"])))
         elif ty == "EndTag":
-            out.append(("end", t["name"]))
+            # the standard's end tag token has attributes (first duplicate wins) and a self-closing flag as well
+            seen, items = set(), []
+            d = t["data"]
+            for k, v in (d.items() if hasattr(d, "items") else d):
+                if k not in seen:
+                    seen.add(k)
+                    items.append((k, v))
+            out.append(("end", t["name"], tuple(items), bool(t["selfClosing"])))
         elif ty == "Comment":
             out.append(("comment", t["data"]))
         elif ty == "Doctype":
@@ -110,7 +117,7 @@ def h5_tokens(text, state, last, cdata, chunk=None):
 def judge(ctx, text, state="data", last=None, cdata=False, fam="?"):
     install()
     case = {"input": text, "state": state, "last_start_tag": last, "cdata": cdata}
-    exp = rtok.tokenize(text, state, last, cdata)
+    exp = rtok.tokenize(text, state, last, cdata, end_details=True)
     chunk = None
     if fam in ("soup", "lookahead") and (len(text) % 3 == 0):
         chunk = 1 + (len(text) * 7 + len(state)) % 9   # deterministic small chunk size 1..9
@@ -125,7 +132,7 @@ def judge(ctx, text, state="data", last=None, cdata=False, fam="?"):
     nontrivial = any(t[0] != "chars" for t in exp) or "&" in text
     ctx.case([text, state, last, cdata], nontrivial=nontrivial)
     ctx.count("runs:" + fam)
-    if got != exp and cdata and "\x00" in text and got == rtok.tokenize(text, state, last, cdata, ("cdata-nul-replaced-by-tokenizer",)):
+    if got != exp and cdata and "\x00" in text and got == rtok.tokenize(text, state, last, cdata, ("cdata-nul-replaced-by-tokenizer",), end_details=True):
         ctx.known_finding("cdata-nul-replaced-by-tokenizer", case, "NUL inside a CDATA section is emitted as U+FFFD by the tokenizer (the standard passes U+0000 on to tree construction)")
         return
     if got != exp:
